@@ -163,6 +163,22 @@ pub const IANA_PROTO: [&str; 145] = [
     "Shim6", "WESP", "ROHC", "Ethernet", "AGGFRAG",
 ];
 
+/// is `got` (normalised) an acceptable name for protocol number `n`? IANA assigns no keyword
+/// to 145..=252 (unassigned) and 253/254 (experimentation and testing): any wording of
+/// "unknown" / "unassigned" (with or without the number attached, e.g. a future
+/// `Unknown(200)`), resp. "experimental" / "testing", is accepted there
+pub fn proto_name_ok(n: u8, got: &str) -> bool {
+    if iana_names(n).iter().any(|x| x == got) {
+        return true;
+    }
+    let stem = got.trim_end_matches(|c: char| c.is_ascii_digit());
+    match n {
+        145..=252 => matches!(stem, "unknown" | "unassigned"),
+        253 | 254 => matches!(stem, "unknown" | "unassigned" | "experimental" | "experimentation" | "experimentationandtesting" | "testing" | "useforexperimentationandtesting"),
+        _ => false,
+    }
+}
+
 pub fn norm_name(s: &str) -> String {
     s.chars()
         .filter(|c| c.is_ascii_alphanumeric())
@@ -214,7 +230,8 @@ pub enum Exp {
     I32(i32),
     /// signed 8/16-byte value: the library's value enum cannot hold it (finding D24)
     IWide(i128, usize),
-    Str(String),
+    /// text of a string element (lossy conversion of the wire bytes) and the wire bytes
+    Str(String, Vec<u8>),
     F64Bits(u64),
     Dur(Duration),
     Ip4([u8; 4]),
@@ -223,6 +240,8 @@ pub enum Exp {
     Bytes(Vec<u8>),
     /// V9 PROTOCOL: the protocol number
     Proto(u8),
+    /// value of a data type this harness does not know: anything is accepted
+    Opaque,
 }
 
 pub fn v9_dtype(ie: u16) -> FieldDataType {
@@ -255,6 +274,9 @@ pub fn legal_widths(dt: &FieldDataType) -> &'static [u16] {
         FieldDataType::Float64 => &[8],
         FieldDataType::ProtocolType => &[1],
         FieldDataType::String | FieldDataType::Vec | FieldDataType::Unknown => &[],
+        // a data type added to the library later: treated like an opaque field
+        #[allow(unreachable_patterns)]
+        _ => &[],
     }
 }
 
@@ -295,7 +317,7 @@ pub fn expect(dt: &FieldDataType, b: &[u8]) -> Result<Exp, NonConf> {
             8 | 16 => Exp::IWide(be_i128(b), n),
             _ => return nc(format!("signed width {}", n)),
         },
-        FieldDataType::String => Exp::Str(String::from_utf8_lossy(b).into_owned()),
+        FieldDataType::String => Exp::Str(String::from_utf8_lossy(b).into_owned(), b.to_vec()),
         FieldDataType::Ip4Addr => match n {
             4 => Exp::Ip4([b[0], b[1], b[2], b[3]]),
             _ => return nc("ipv4 width"),
@@ -341,6 +363,9 @@ pub fn expect(dt: &FieldDataType, b: &[u8]) -> Result<Exp, NonConf> {
             _ => return nc("float width"),
         },
         FieldDataType::Vec | FieldDataType::Unknown => Exp::Bytes(b.to_vec()),
+        // a data type added to the library later: the slicing is still checked, the value is not
+        #[allow(unreachable_patterns)]
+        _ => Exp::Opaque,
     })
 }
 
